@@ -4,7 +4,7 @@ usage: kf_add.py <property> <explanation> <replay.json>...   (explanation is app
 import json, sys
 pid, expl = sys.argv[1], sys.argv[2]
 k = json.load(open('/verif/known_findings.json'))
-have = {(f['property'], f['signature']) for f in k['findings']}
+have = {(f['property'], f.get('signature')) for f in k['findings']}
 for p in sys.argv[3:]:
     r = json.load(open(p))
     assert r['property'] == pid
@@ -12,6 +12,6 @@ for p in sys.argv[3:]:
         continue
     k['findings'].append({'property': pid, 'signature': r['signature'],
                           'what': (r['what'][:300] + ' -- ' + expl).strip(), 'witness': r['witness'], 'explanation': expl})
-k['findings'].sort(key=lambda f: (f['property'], f['signature']))
+k['findings'].sort(key=lambda f: (f['property'], f.get('signature') or f.get('signature_regex')))
 json.dump(k, open('/verif/known_findings.json', 'w'), indent=1)
 print(len(k['findings']), 'findings')
